@@ -13,6 +13,7 @@ import Proofs.C06.Slip132
 import Proofs.C06.ScriptAddr
 import Proofs.C06.KeyTextConv
 import Proofs.C06.ThreeErr
+import Proofs.C06.Bip21
 /-!
 # C06 — text encodings and addresses round-trip and accept exactly what the specs accept
 
@@ -449,6 +450,35 @@ example : KeyText.xkeySemValid 7 (fun _ => true)
 example : KeyText.xkeySemValid 7 (fun _ => true)
     ⟨[4, 136, 173, 228], 0, [0, 0, 0, 0], 1, List.replicate 32 0, 0 :: (List.replicate 31 0 ++ [1])⟩ = false := by
   decide +kernel
+
+/-! ## BIP21 payment URIs (`bip21.py`): query layer -/
+/-- BIP21 "a repeated key is an error, not last-one-wins", on DECODED names: whenever two non-empty elements of a
+    query have names that percent-decode to the same text — in any two spellings, `amount` and `%61mount` — the
+    loop of `Bip21.parse` refuses, whatever stands before, between and after them and whatever was seen before. -/
+theorem bip21_repeated_parameter_refused (A B C : List (List Nat)) (e1 e2 k : List Nat) (seen : List (List Nat))
+    (h1 : e1 ≠ []) (h2 : e2 ≠ []) (d1 : Bip21.pctDecode (Bip21.partition 61 e1).1 = .ok k)
+    (d2 : Bip21.pctDecode (Bip21.partition 61 e2).1 = .ok k) :
+    ∀ ps, Bip21.parseLoop (A ++ e1 :: (B ++ e2 :: C)) seen ≠ .ok ps :=
+  Bip21.repeated_name_refused A B C e1 e2 k seen h1 h2 d1 d2
+
+/-- PARTIAL. Full statement (NOT proved): `Bip21.parse(Bip21(...).serialize())` gives back address, amount, label,
+    message and others for every valid request, and `serialize(parse(uri)) = uri` for every URI `serialize` writes.
+    Proved: the escaping layer — what `quote(text, safe=_SAFE)` writes for an ASCII text decodes back to the text
+    with `_decode`, and contains none of the delimiters `&`, `=`, `#`, `?` the parser splits at. Splitting/joining,
+    the amount grammar and non-ASCII text (UTF-8) are tied by the oracles `bip21.roundtrip` / `bip21.repeat` and the
+    stream `bip21` only. -/
+theorem bip21_roundtrip_partial (s : List Nat) (h : ∀ c ∈ s, c < 128) :
+    Bip21.pctDecode (Bip21.pctEncode s) = .ok s ∧
+    ∀ x ∈ Bip21.pctEncode s, x ≠ 38 ∧ x ≠ 61 ∧ x ≠ 35 ∧ x ≠ 63 :=
+  ⟨Bip21.pctDecode_pctEncode s h, Bip21.pctEncode_no_delims s h⟩
+
+-- non-vacuity: "amount=1&%61mount=2" (two spellings of one name) is refused;
+-- "label=a%20b&x=1#frag" is read as [("label", "a b"), ("x", "1")]; "a b&" is written "a%20b%26"
+example : Bip21.parseQuery [97, 109, 111, 117, 110, 116, 61, 49, 38, 37, 54, 49, 109, 111, 117, 110, 116, 61, 50] =
+    .error .repeated := by decide +kernel
+example : Bip21.parseQuery [108, 97, 98, 101, 108, 61, 97, 37, 50, 48, 98, 38, 120, 61, 49, 35, 102, 114, 97, 103] =
+    .ok [([108, 97, 98, 101, 108], [97, 32, 98]), ([120], [49])] := by decide +kernel
+example : Bip21.pctEncode [97, 32, 98, 38] = [97, 37, 50, 48, 98, 37, 50, 54] := by decide +kernel
 
 /-! ## SLIP132 version ↔ script type (tables generated from `network.py` and `slip132.py`) -/
 open Btc.Slip132 Btc.Address Gen.Net in
